@@ -1,1 +1,2 @@
 import Props.C08
+import Props.C19
